@@ -261,6 +261,9 @@ type Explorer struct {
 	maxViol      int
 	replayLabels []string
 	selfCheck    int
+	// Repass is the number of initial executions that are judged a second time at the end of the phase.
+	Repass    int
+	firstRuns [][]int
 }
 
 // NewExplorer builds an explorer. shard/nshards select a slice of the tree:
@@ -274,7 +277,7 @@ func NewExplorer(property string, body func(*Ctx), b Bounds, shard, nshards, sha
 		shardDepth = 1
 	}
 	return &Explorer{Property: property, Body: body, Bounds: b, Stats: newStats(), shard: shard, nshards: nshards,
-		shardDepth: shardDepth, maxSamples: 6, maxViol: 40, selfCheck: 50}
+		shardDepth: shardDepth, maxSamples: 6, maxViol: 40, selfCheck: 50, Repass: 2000}
 }
 
 type execResult struct {
@@ -416,12 +419,43 @@ func (e *Explorer) Explore() {
 				st.Violations = append(st.Violations, v)
 			}
 		}
+		if !res.skipped && len(e.firstRuns) < e.Repass {
+			e.firstRuns = append(e.firstRuns, choicesOf(res.trace))
+		}
 		np, pos := e.next(res.trace)
 		if np == nil {
 			break
 		}
 		prefix = np
 		newFrom = pos
+	}
+	// second pass: re-judge the first executions now that everything else has run in this process.
+	// The functions under test are supposed to be pure; a result that changes with the calls made in
+	// between (a cache with colliding keys, a reused buffer) shows up here with the ordinary oracle.
+	if e.Repass > 0 && st.Exhaustive {
+		saveStats := e.Stats
+		for _, ch := range e.firstRuns {
+			e.Stats = newStats()
+			res := e.run(ch, false)
+			e.Stats = saveStats
+			if res.skipped {
+				continue
+			}
+			st.Counters["rejudged_after_history"]++
+			for _, v := range res.viol {
+				st.ViolationN++
+				st.SigCounts[v.Sig]++
+				if st.SigCounts[v.Sig] <= 3 && len(st.Violations) < e.maxViol {
+					v.Choices = ch
+					v.Labels = labelsOf(res.trace)
+					if v.Detail == nil {
+						v.Detail = map[string]any{}
+					}
+					v.Detail["found_on"] = "second pass (re-judged after the other executions of this process)"
+					st.Violations = append(st.Violations, v)
+				}
+			}
+		}
 	}
 	st.OutcomeN = int64(len(st.Outcomes))
 	st.NontrivN = int64(len(st.Nontriv))
